@@ -1,7 +1,7 @@
-from contracts import tagged, cflags
+from contracts import tagged, cflags, errkind
 
 def build(tier):
-    return dict(targets=tagged.targets(tier) + cflags.targets(tier),
+    return dict(targets=tagged.targets(tier) + cflags.targets(tier) + errkind.targets(tier),
                 assumptions=["what is verified is clang 14's -O1 LLVM IR of the real CPy.h / int_ops.c, not the C text and not the gcc -O3 binary mypyc ships",
                              "slow paths (CPyTagged_*_ , CPython PyLong arithmetic) are trusted",
                              "a long (tagged pointer) operand denotes an int outside the short range (representation invariant of CPyTagged)"],
